@@ -114,6 +114,37 @@ def _cases(rng, tier):
     return out
 
 
+def deep_pent_cases(ctx, rng, tier):
+    """small polygons around deep cells of pentagon base cells whose digit string is <short prefix> <long run of 0> <d>:
+    their parents look like pentagons to anything that inspects only part of the digit string, and the child with d = 1
+    is the one a pentagon parent does not have (nextCell's sibling stepping, isPentagon on fine parents)"""
+    out = []
+    n = 14 if tier == "quick" else 120
+    cells = []
+    for k in range(n):
+        res = rng.choice([11, 12, 12, 13, 14, 15])
+        zeros = rng.randrange(max(6, res - 4), res - 1)
+        pre = res - 1 - zeros
+        prefix = [rng.choice([2, 3, 4, 5, 6])] + [rng.randrange(0, 7) for _ in range(pre - 1)] if pre > 0 else []
+        last = 1 if k % 3 != 2 else rng.randrange(0, 7)
+        ds = prefix + [0] * zeros + [last]
+        if not prefix and last == 1:
+            ds[-1] = 2
+        cells.append(gen.mkcell(res, rng.choice(gen.PENT), ds))
+    ans = ctx.c([f"c2ll {gen.hx(c)}" for c in cells], tag="deeppent")
+    for c, a in zip(cells, ans):
+        if not ok(a) or not gen.layout_spec(c):
+            continue
+        res = (c >> 52) & 15
+        la, ln = bits2f(a.split()[1]), bits2f(a.split()[2])
+        if abs(la) > 1.4:
+            continue
+        R = rng.uniform(2.5, 5.0) * EDGE[res]
+        outer = gen.ngon(la, ln, R, rng.choice([4, 5, 7]), rng, jitter=0.1, phase=rng.uniform(0, 1))
+        out.append(([[(a_, gen.norm_lng(b_)) for a_, b_ in outer]], la, ln, R, res, "small-fine"))
+    return out
+
+
 _ALL = {}
 
 
@@ -145,7 +176,7 @@ def candidates(ctx, lat, lng, radius, res, nb):
 
 def evaluate(ctx, rng, tier, focus, budget, broken):
     viol_ = []
-    cases = _cases(rng, tier)
+    cases = _cases(rng, tier) + deep_pent_cases(ctx, rng, tier)
     stats = {}
     skipped = {}
     ncells = 0
